@@ -211,9 +211,6 @@ func runRoundTrip(c *mon.Case, p *rtParams) {
 			c.Fail("reject", "%s failed on a %d-byte message: %v (random source: %d bytes read, budget hit %v)", ev.name, len(p.m), err, src.Consumed(), src.Budget)
 			continue
 		}
-		if !bytes.Equal(m, p.m) {
-			c.Fail("mismatch", "%s modified the caller's message", ev.name)
-		}
 		c.Event("encryptions", 1)
 		t, perr := enc.Parse(cv, got, ev.layout)
 		if perr != nil {
@@ -290,7 +287,7 @@ func roundtrip(x *mon.Ctx, cv enc.Curve) {
 	if !isSM2(cv) {
 		reps = x.Scale(1, 12)
 	}
-	lens := msgLens()
+	lens := msgLens(x.Thorough())
 	for rep := 0; rep < reps; rep++ {
 		for li, n := range lens {
 			for _, zero := range []bool{false, true} {
